@@ -5,7 +5,6 @@ import os
 import re
 import subprocess
 import sys
-import warnings
 from fractions import Fraction
 
 import common
@@ -125,9 +124,7 @@ def extract():
     """Read the tables out of the live module; raises if the grammar is not of the modelled shape."""
     import pyparsing as pp
     sm = _sm()
-    with warnings.catch_warnings():
-        warnings.simplefilter('ignore')
-        g = sm.make_grammar()
+    g = sm.make_grammar()
     sh = _shape(g)
     if sh[0] != 'first' or len(sh[1]) != 5:
         raise ValueError('grammar is not a choice of five alternatives: %r' % (sh,))
@@ -234,14 +231,14 @@ def impl_tree(spec):
     """Tokens of the real grammar's prefix parse, or None for ParseException."""
     import pyparsing
     sm = _sm()
-    with warnings.catch_warnings():
-        warnings.simplefilter('ignore')
-        if 'g' not in _GRAMMAR:
-            _GRAMMAR['g'] = sm.make_grammar()
-        try:
-            return [str(t) for t in _GRAMMAR['g'].parseString(spec)]
-        except pyparsing.ParseException:
-            return None
+    if 'g' not in _GRAMMAR:
+        _GRAMMAR['g'] = sm.make_grammar()
+    g = _GRAMMAR['g']
+    parse = getattr(g, 'parse_string', None) or g.parseString      # the harness's own use: the current spelling
+    try:
+        return [t if isinstance(t, str) else repr(t) for t in parse(spec)]
+    except pyparsing.ParseException:
+        return None
 
 
 # The pinned public interface (as on the clean tree; written here as data, not read from the tree under test).
@@ -265,12 +262,10 @@ def call_match(sm, value, spec, form='pp'):
 
 def impl_match(value, spec, form='pp'):
     sm = _sm()
-    with warnings.catch_warnings():
-        warnings.simplefilter('ignore')
-        try:
-            r = call_match(sm, value, spec, form)
-        except Exception as e:     # noqa: the class name is the canonical outcome
-            return type(e).__name__
+    try:                           # the harness touches no filter, logger level or other ambient state here
+        r = call_match(sm, value, spec, form)
+    except Exception as e:         # noqa: the class name is the canonical outcome
+        return type(e).__name__
     if r is True:
         return 'ok:1'
     if r is False:
@@ -294,36 +289,34 @@ def apply_event(name):
 
     def meth(obj, snake, camel):
         return getattr(obj, snake, None) or getattr(obj, camel)
-    with warnings.catch_warnings():
-        warnings.simplefilter('ignore')
-        g = sm.make_grammar(*SIGNATURES['make_grammar'])
-        if name == 'parse':
-            try:
-                meth(g, 'parse_string', 'parseString')('>= 5 trailing')
-            except pp.ParseException:
-                pass
-        elif name == 'copy':
-            meth(g.copy(), 'leave_whitespace', 'leaveWhitespace')()
-        elif name == 'set_name':
-            meth(g, 'set_name', 'setName')('spec')
-        elif name == 'streamline':
-            g.streamline()
-        elif name == 'ignore':
-            g.ignore('#' + (getattr(pp, 'rest_of_line', None) or pp.restOfLine))
-        elif name == 'leave_whitespace':
-            meth(g, 'leave_whitespace', 'leaveWhitespace')()
-        elif name == 'set_whitespace_chars':
-            meth(g, 'set_whitespace_chars', 'setWhitespaceChars')('\t')
-        elif name == 'add_parse_action':
-            meth(g, 'add_parse_action', 'addParseAction')(lambda t: ['customised'])
-        elif name == 'ior':
-            g |= pp.Literal('zzz')
-        elif name == 'twice':
-            h = sm.make_grammar()
-            meth(h, 'leave_whitespace', 'leaveWhitespace')()
-            meth(g, 'add_parse_action', 'addParseAction')(lambda t: [])
-        elif name != 'none':
-            raise ValueError('unknown grammar event %r' % (name,))
+    g = sm.make_grammar(*SIGNATURES['make_grammar'])
+    if name == 'parse':
+        try:
+            meth(g, 'parse_string', 'parseString')('>= 5 trailing')
+        except pp.ParseException:
+            pass
+    elif name == 'copy':
+        meth(g.copy(), 'leave_whitespace', 'leaveWhitespace')()
+    elif name == 'set_name':
+        meth(g, 'set_name', 'setName')('spec')
+    elif name == 'streamline':
+        g.streamline()
+    elif name == 'ignore':
+        g.ignore('#' + (getattr(pp, 'rest_of_line', None) or pp.restOfLine))
+    elif name == 'leave_whitespace':
+        meth(g, 'leave_whitespace', 'leaveWhitespace')()
+    elif name == 'set_whitespace_chars':
+        meth(g, 'set_whitespace_chars', 'setWhitespaceChars')('\t')
+    elif name == 'add_parse_action':
+        meth(g, 'add_parse_action', 'addParseAction')(lambda t: ['customised'])
+    elif name == 'ior':
+        g |= pp.Literal('zzz')
+    elif name == 'twice':
+        h = sm.make_grammar()
+        meth(h, 'leave_whitespace', 'leaveWhitespace')()
+        meth(g, 'add_parse_action', 'addParseAction')(lambda t: [])
+    elif name != 'none':
+        raise ValueError('unknown grammar event %r' % (name,))
     return 'event'
 
 
@@ -892,24 +885,28 @@ def family_calls(vals, specs, rng):
     return calls
 
 
-_FRESH_CODE = r"""
+_FRESH_BODY = r"""
 import sys, json
-sys.path[:0] = [sys.argv[1], sys.argv[1] + '/props']
-import common
-from props import C18
 json.dump(C18.run_calls(json.load(sys.stdin)), sys.stdout)
 """
 
 
 def fresh_run(calls):
-    """Outcomes of the call sequence in a new interpreter (no state from this process)."""
-    cmd = [sys.executable]
+    """Outcomes of the call sequence in a new interpreter (no state from this process) that is in the same
+    ambient configuration as this one.  Bounded by the wall-clock budget of the run."""
+    import time
+    import ambient
+    hdir = os.path.join(common.VERIF, 'harness')
+    code = ambient.setup_snippet('import sys\nsys.path[:0] = [%r, %r]\nimport common\nfrom props import C18'
+                                 % (hdir, os.path.join(hdir, 'props'))) + _FRESH_BODY
+    cmd = ambient.fresh_interpreter_argv()
     if getattr(sys, 'pycache_prefix', None):
         cmd += ['-X', 'pycache_prefix=' + sys.pycache_prefix]
-    cmd += ['-c', _FRESH_CODE, os.path.join(common.VERIF, 'harness')]
+    cmd += ['-c', code]
     env = dict(os.environ, PYTHONDONTWRITEBYTECODE='1', VERIF_REPO=common.REPO)
+    left = 120 if _BUDGET['until'] is None else max(10, min(60, _BUDGET['until'] - time.time() + 10))
     p = subprocess.run(cmd, input=json.dumps([list(c) for c in calls]).encode(), stdout=subprocess.PIPE,
-                       stderr=subprocess.PIPE, env=env, timeout=1800)
+                       stderr=subprocess.PIPE, env=env, timeout=left)
     if p.returncode != 0:
         raise RuntimeError('fresh interpreter failed: ' + p.stderr.decode('utf-8', 'replace')[-800:])
     return json.loads(p.stdout.decode())
@@ -984,11 +981,24 @@ def show(out):
 def history_failure(prefix, got, log):
     """A call gave `got` in this process, which is not what its arguments mean.  Find a short call
     sequence that reproduces it in a fresh interpreter."""
+    try:
+        return _history_failure(prefix, got, log)
+    except subprocess.TimeoutExpired:
+        last = tuple(prefix[-1])
+        return Failure({'calls': [list(c) for c in (list(_EVENTS) + log)[-200:]]},
+                       {'kind': 'wrong answer (not confirmed in a fresh interpreter within the time budget)',
+                        'what': 'in the checking process %s was %s; the last 200 calls are kept'
+                                % (show_call(last), show(got))})
+
+
+def _history_failure(prefix, got, log):
     last = tuple(prefix[-1])
     v, s, form = vsf(last)
-    want = expected_outcome(v, s, form)
     op = (s.split() or ['?'])[0]
     opname = op if op in DOC_OPS else 'no-operator'
+    if not time_left():
+        raise subprocess.TimeoutExpired('fresh interpreter', 0)
+    want = expected_outcome(v, s, form)
     if alone(v, s, form) != want:
         v2, s2, form2 = shrink_case(v, s, form)
         case = {'value': v2, 'spec': s2}
@@ -1124,7 +1134,8 @@ def check_lit(text, reply):
 def correspondence(ctx):
     rng = ctx.rng
     out = []
-    n_struct, n_soup = (9000, 3000) if ctx.quick else (110000, 30000)
+    div = 4 if getattr(ctx, 'ambient', None) else 1     # ambient children: a quarter of every generated family
+    n_struct, n_soup = (8000 // div, 2400 // div) if ctx.quick else (110000 // div, 30000 // div)
     cases = list(all_cases(ctx, n_struct, n_soup))
     replies = ctx.driver.ask_many([match_line(v, s) for v, s, _ in cases])
     for (v, s, tag), rep in zip(cases, replies):
@@ -1153,7 +1164,7 @@ def correspondence(ctx):
             out.append(Disagreement(case, show_tree(tree) + '\t' + res, rep))
     # call sequences: specs that differ only in where the whitespace falls, back to back, both orders;
     # and match() around a caller that takes the grammar from the public make_grammar() and customises it
-    n_fam, n_gram = (80, 30) if ctx.quick else (800, 300)
+    n_fam, n_gram = (60 // div, 30 // div) if ctx.quick else (800 // div, 300 // div)
     for k in range(n_fam + n_gram):
         if k < n_fam:
             vals, specs, tag = gen_family(rng)
@@ -1183,7 +1194,7 @@ def correspondence(ctx):
                                         res, rep, where='call sequence (the model is stateless)'))
                 break
     # float() and literal_eval models on their own
-    texts = float_cases(rng, 1500 if ctx.quick else 20000)
+    texts = float_cases(rng, (1500 if ctx.quick else 20000) // div)
     for t, rep in zip(texts, ctx.driver.ask_many([req('float', common.hexs(t)) for t in texts])):
         ctx.evaluations += 1
         ctx.count('corr/float')
@@ -1205,7 +1216,7 @@ def correspondence(ctx):
             got = rep
         if got != want:
             out.append(Disagreement({'float': t}, repr(want), rep, where='float()'))
-    texts = lit_cases(rng, 1500 if ctx.quick else 20000)
+    texts = lit_cases(rng, (1500 if ctx.quick else 20000) // div)
     for t, rep in zip(texts, ctx.driver.ask_many([req('lit', common.hexs(t)) for t in texts])):
         ctx.evaluations += 1
         ctx.count('corr/literal')
@@ -1386,7 +1397,7 @@ def search(ctx, seeds, full=False):
             first.setdefault(c, got)
         return got
 
-    start_budget(60 if ctx.quick else 300)     # wall clock for confirming / shrinking in fresh interpreters
+    start_budget(60)               # wall clock for all confirming / shrinking in fresh interpreters, per run
 
     def report(prefix, got):
         """Confirm / shrink (fresh interpreters - expensive) once per operator only."""
@@ -1428,7 +1439,8 @@ def search(ctx, seeds, full=False):
     todo += [mk_call(v, s, form) for v, s, _ in fixed_cases()[:40] for form in FORMS]
     todo += [mk_call(v, s) for v, s, _ in fixed_cases()]
     # 2. single calls, in every call form of the pinned signature match(cmp_value, spec)
-    n = (25000 if full else 6000) if ctx.quick else (150000 if full else 40000)
+    div = 4 if getattr(ctx, 'ambient', None) else 1     # ambient children: a quarter of every generated family
+    n = ((25000 if full else 5000) if ctx.quick else (150000 if full else 40000)) // div
     judged = 0
     for i in range(n + len(todo)):
         if len(fails) >= 5:
@@ -1454,8 +1466,8 @@ def search(ctx, seeds, full=False):
     ctx.count('search/judged', judged)
     # 3. call sequences: families of specs that differ only in where the whitespace falls (both orders, same
     #    values); match() before and after a caller customises the grammar the public make_grammar() returned
-    n_fam = (1000 if full else 150) if ctx.quick else (6000 if full else 1500)
-    n_gram = (200 if full else 40) if ctx.quick else (1500 if full else 400)
+    n_fam = ((1000 if full else 100) if ctx.quick else (6000 if full else 1500)) // div
+    n_gram = ((200 if full else 40) if ctx.quick else (1500 if full else 400)) // div
     for k in range(n_fam + n_gram):
         if len(fails) >= 5:
             break
@@ -1469,7 +1481,7 @@ def search(ctx, seeds, full=False):
     # 4. re-evaluation in shuffled order: the answer to a call may not change during the process
     again = list(first.items())
     rng.shuffle(again)
-    for c, was in again[:(1500 if ctx.quick else 10000)]:
+    for c, was in again[:(1500 if ctx.quick else 10000) // div]:
         if len(fails) >= 5:
             break
         ctx.evaluations += 1
